@@ -59,9 +59,9 @@ struct MemKv {
     die_after_store: bool,
     /// power loss right before the next `store` becomes durable (nothing is written)
     die_before_store: bool,
-    /// the next `store`s fail with an error (nothing is written; no power loss) -- store failures are
-    /// outside C12's quantifier, this only serves the documented observation replay
-    fail_store: bool,
+    /// `Some(n)`: the next `n` `store`s succeed, every later one FAILS with an error (nothing is
+    /// written; no power loss)
+    fail_after: Option<u32>,
 }
 
 impl KvBlobStore for MemKv {
@@ -72,8 +72,10 @@ impl KvBlobStore for MemKv {
         }))
     }
     fn store(&mut self, key: u16, data: &[u8], _buf: &mut [u8]) -> Result<(), Error> {
-        if self.fail_store {
-            return Err(rs_matter::error::ErrorCode::StdIoError.into());
+        match self.fail_after {
+            Some(0) => return Err(rs_matter::error::ErrorCode::StdIoError.into()),
+            Some(n) => self.fail_after = Some(n - 1),
+            None => {}
         }
         if self.die_before_store {
             self.die_before_store = false;
@@ -192,14 +194,21 @@ fn run_g(out: &mut Out, case: &Case, words: &[&str], full: bool) {
         kv.map.insert(GROUP_DATA_COUNTER_KEY, (d as u32).to_le_bytes().to_vec());
     }
     let mut sess = g_boot(&mut kv, full);
-    let mut inflight: Option<(u32, Option<u32>)> = None;
+    // `initiate_group`'s critical section between the reservation that returned a boundary and the
+    // outcome of its store
+    let mut inflight: Option<(u32, u32)> = None;
+    // values in the local variables of `initiate_group` calls past their critical section (several =
+    // several calls in progress, `sync-mutex` builds), newest first
+    let mut held: Vec<u32> = Vec::new();
     let mut ready: Vec<u32> = Vec::new();
     let (mut n_crash, mut n_use, mut n_store) = (0u32, 0u32, 0u32);
     for op in &case.ops {
         let w: Vec<&str> = op.split_whitespace().collect();
+        let idx = |w: &[&str]| -> usize { w.get(1).and_then(|x| x.parse().ok()).unwrap_or(0) };
         let res: String = match w.first().copied().unwrap_or("") {
             "reserve" => {
                 if inflight.is_some() {
+                    // the state lock is held until the store has succeeded or failed
                     "busy".into()
                 } else {
                     let rand: u32 = w.get(1).and_then(|x| x.parse().ok()).unwrap_or(0);
@@ -207,7 +216,10 @@ fn run_g(out: &mut Out, case: &Case, words: &[&str], full: bool) {
                     let r = catch_unwind(AssertUnwindSafe(|| sess.with(|s| s.verif_reserve_global_group_data_ctr(&crypto))));
                     match r {
                         Ok(Ok((v, b))) => {
-                            inflight = Some((v, b));
+                            match b {
+                                Some(b) => inflight = Some((v, b)),
+                                None => held.insert(0, v),
+                            }
                             let (l, bd) = sess.with(|s| s.verif_group_data_ctr_state());
                             out.stat(if b.is_some() { "g_reserve_some" } else { "g_reserve_none" }, 1);
                             format!("{} {} {} {}", v, opt(b), l, bd)
@@ -217,26 +229,49 @@ fn run_g(out: &mut Out, case: &Case, words: &[&str], full: bool) {
                     }
                 }
             }
-            // exchange.rs: `if let Some(boundary) = boundary { kv.access(|store, buf| store.store(KEY, &boundary.to_le_bytes(), buf))?; }`
+            // exchange.rs: `kv.access(|store, buf| store.store(KEY, &boundary.to_le_bytes(), buf))` succeeds
             "store" => match inflight {
-                Some((v, Some(b))) => {
+                Some((v, b)) => {
                     let mut buf = [0u8; 64];
                     let _ = kv.store(GROUP_DATA_COUNTER_KEY, &b.to_le_bytes(), &mut buf);
-                    inflight = Some((v, None));
+                    inflight = None;
+                    held.insert(0, v);
                     n_store += 1;
                     le32(kv.map.get(&GROUP_DATA_COUNTER_KEY).map(|x| x.as_slice()).unwrap_or(&[]))
                 }
-                _ => "-".into(),
+                None => "-".into(),
+            },
+            // exchange.rs: the store FAILS: `state.sessions.unreserve_global_group_data_ctr(ctr); return Err(e)`
+            "storefail" => match inflight {
+                Some((v, _)) => {
+                    inflight = None;
+                    out.stat("g_storefail", 1);
+                    sess.with(|s| s.verif_unreserve_global_group_data_ctr(v));
+                    let (l, bd) = sess.with(|s| s.verif_group_data_ctr_state());
+                    format!("{} {}", l, bd)
+                }
+                None => "-".into(),
             },
             // exchange.rs: `exch.group_data_ctr = Some(group_data_ctr)` — reached only after the store
-            "stash" => match inflight {
-                Some((v, None)) => {
-                    inflight = None;
+            "stash" => {
+                let i = idx(&w);
+                if i < held.len() {
+                    let v = held.remove(i);
                     ready.insert(0, v);
                     v.to_string()
+                } else {
+                    "-".into()
                 }
-                _ => "-".into(),
-            },
+            }
+            // exchange.rs: `initiate_for_session(..)?` fails after the critical section: the value is dropped
+            "abandon" => {
+                let i = idx(&w);
+                if i < held.len() {
+                    held.remove(i).to_string()
+                } else {
+                    "-".into()
+                }
+            }
             // session.rs `pre_send`: `group_data_ctr.take()` -> `tx_header.plain.ctr`
             "use" => {
                 let i: usize = w.get(1).and_then(|x| x.parse().ok()).unwrap_or(0);
@@ -262,6 +297,7 @@ fn run_g(out: &mut Out, case: &Case, words: &[&str], full: bool) {
             "crash" => {
                 n_crash += 1;
                 inflight = None;
+                held.clear();
                 ready.clear();
                 sess = g_boot(&mut kv, full);
                 let (l, bd) = sess.with(|s| s.verif_group_data_ctr_state());
@@ -369,6 +405,24 @@ fn run_e(out: &mut Out, case: &Case, words: &[&str]) {
                     "-".into()
                 } else {
                     toks.join(" ")
+                }
+            }
+            // `push` while the KV store FAILS (an error, no power loss)
+            "pushfail" => {
+                kvc.borrow_mut().fail_after = Some(0);
+                let r = {
+                    let acc = KvAcc::new(&kvc);
+                    catch_unwind(AssertUnwindSafe(|| ev.push(0, 0x28, 0, EventPriority::Info, &acc, |_tw| Ok(()))))
+                };
+                kvc.borrow_mut().fail_after = None;
+                out.stat("e_pushfail", 1);
+                match r {
+                    Ok(Ok(n)) => {
+                        n_push += 1;
+                        format!("r{}-{}", n, n)
+                    }
+                    Ok(Err(_)) => "err".into(),
+                    Err(_) => "panic".into(),
                 }
             }
             // power loss inside `push`, right after its store became durable (if it stores at all;
@@ -508,6 +562,19 @@ fn run_i(out: &mut Out, case: &Case, words: &[&str]) {
                 n_store += 1;
                 stored(&mut kv)
             }
+            "persistfail" => {
+                kv.fail_after = Some(0);
+                let r = icd.persist_counter(&mut kv, &mut buf);
+                kv.fail_after = None;
+                if r.is_err() { "err".into() } else { "ok".into() }
+            }
+            "advstfail" => {
+                kv.fail_after = Some(0);
+                let r = icd.advance_counter(&mut kv, &mut buf);
+                kv.fail_after = None;
+                out.stat("i_advstfail", 1);
+                if r.is_err() { "err".into() } else { "-".into() }
+            }
             "use" => {
                 n_use += 1;
                 icd.next_counter().to_string()
@@ -591,30 +658,60 @@ fn gen_g(r: &mut Rng, out: &mut Out, sends: u64) -> Vec<String> {
     let mut ops: Vec<String> = Vec::new();
     let p_crash = *r.pick(&[0u64, 2, 5, 10, 25]);
     let p_defer = *r.pick(&[0u64, 10, 40]);
-    let mut ready = 0u64; // generator's estimate, only used to pick indices
-    let crash = |ops: &mut Vec<String>, ready: &mut u64, out: &mut Out, at: &str| {
+    // failing stores: none, rare, frequent, bursts (the store keeps failing for a while)
+    let p_fail = *r.pick(&[0u64, 0, 3, 15, 40]);
+    // several `initiate_group` calls in progress at once (values held, released in any order)
+    let p_overlap = *r.pick(&[0u64, 0, 10, 35]);
+    let mut ready = 0u64; // generator's estimates, only used to pick indices
+    let mut held = 0u64;
+    let crash = |ops: &mut Vec<String>, ready: &mut u64, held: &mut u64, out: &mut Out, at: &str| {
         out.stat(&format!("g_crash_{}", at), 1);
         ops.push("crash".into());
         *ready = 0;
+        *held = 0;
     };
     for _ in 0..sends {
-        if r.chance(p_crash, 100) { crash(&mut ops, &mut ready, out, "before_reserve"); }
+        if r.chance(p_crash, 100) { crash(&mut ops, &mut ready, &mut held, out, "before_reserve"); }
         if r.chance(3, 100) { ops.push(format!("peek {}", gen_g_rand(r))); }
         ops.push(format!("reserve {}", gen_g_rand(r)));
-        if r.chance(p_crash, 100) { crash(&mut ops, &mut ready, out, "after_reserve"); continue; }
-        if r.chance(2, 100) { ops.push("stash".into()); } // the caller never does this before the store: must be a no-op
-        ops.push("store".into());
-        if r.chance(p_crash, 100) { crash(&mut ops, &mut ready, out, "after_store"); continue; }
-        ops.push("stash".into());
-        ready += 1;
-        if r.chance(p_crash, 100) { crash(&mut ops, &mut ready, out, "after_stash"); continue; }
+        if r.chance(p_crash, 100) { crash(&mut ops, &mut ready, &mut held, out, "after_reserve"); continue; }
+        if r.chance(2, 100) { ops.push("stash".into()); } // nothing is held before the store (unless calls overlap)
+        if r.chance(p_fail, 100) {
+            // the store fails (a no-op when this reservation needed none); the caller gives up
+            out.stat("g_gen_storefail", 1);
+            ops.push("storefail".into());
+            if r.chance(1, 3) { crash(&mut ops, &mut ready, &mut held, out, "after_storefail"); }
+            // (when no store was needed the value is held: release it below like any other)
+            ops.push("store".into());
+        } else {
+            ops.push("store".into());
+        }
+        held += 1;
+        if r.chance(p_crash, 100) { crash(&mut ops, &mut ready, &mut held, out, "after_store"); continue; }
+        if r.chance(p_overlap, 100) && held < 4 { out.stat("g_gen_overlap", 1); continue; }
+        while held > 0 {
+            if r.chance(4, 100) {
+                ops.push(format!("abandon {}", r.below(held)));
+            } else {
+                ops.push(format!("stash {}", r.below(held)));
+                ready += 1;
+            }
+            held -= 1;
+            if r.chance(1, 4) { break; }
+        }
+        if r.chance(p_crash, 100) { crash(&mut ops, &mut ready, &mut held, out, "after_stash"); continue; }
         if r.chance(p_defer, 100) { out.stat("g_use_deferred", 1); continue; }
         while ready > 0 {
             ops.push(format!("use {}", r.below(ready)));
             ready -= 1;
-            if r.chance(p_crash, 200) { crash(&mut ops, &mut ready, out, "after_use"); }
+            if r.chance(p_crash, 200) { crash(&mut ops, &mut ready, &mut held, out, "after_use"); }
             if r.chance(1, 3) { break; }
         }
+    }
+    while held > 0 {
+        ops.push(format!("stash {}", r.below(held)));
+        held -= 1;
+        ready += 1;
     }
     while ready > 0 {
         ops.push(format!("use {}", r.below(ready)));
@@ -630,12 +727,22 @@ fn gen_w(r: &mut Rng, out: &mut Out, sends: u64) -> Vec<String> {
     let mut ops: Vec<String> = Vec::new();
     let p_crash = *r.pick(&[0u64, 3, 8, 20]);
     let p_defer = *r.pick(&[0u64, 15, 50]);
+    // failing stores inside `initiate_group`: none, rare, frequent
+    let p_fail = *r.pick(&[0u64, 0, 4, 15, 40]);
     let mut waiting = 0u64; // generator's estimate, only used to pick indices
     for _ in 0..sends {
         if r.chance(p_crash, 100) {
             out.stat("w_gen_crash_between", 1);
             ops.push("crash".into());
             waiting = 0;
+        }
+        if r.chance(p_fail, 100) {
+            // (an `openfail` that needs no store is an ordinary open: the exchange waits)
+            out.stat("w_gen_openfail", 1);
+            ops.push(format!("openfail {}", gen_g_rand(r)));
+            if r.chance(1, 2) {
+                continue;
+            }
         }
         if r.chance(p_crash, 100) {
             let how = if r.chance(1, 2) { "a" } else { "b" };
@@ -696,6 +803,9 @@ fn gen_w_full(r: &mut Rng, out: &mut Out) -> Vec<String> {
         }
     }
     out.stat("w_gen_full_at_crossing", 1);
+    if r.chance(1, 3) {
+        ops.push("openfail 0".into());
+    }
     let mut waiting = slots;
     for _ in 0..r.range(1, 4) {
         ops.push(format!("send {}", r.below(waiting)));
@@ -735,12 +845,14 @@ fn gen_e(r: &mut Rng, out: &mut Out, budget: u64) -> Vec<String> {
     for _ in 0..n {
         match r.below(100) {
             0..=19 => { out.stat("e_crash", 1); ops.push("crash".into()); }
-            20..=29 => { out.stat("e_pushcrash", 1); ops.push("pushcrash".into()); }
+            20..=26 => { out.stat("e_pushcrash", 1); ops.push("pushcrash".into()); }
+            27..=29 => { out.stat("e_gen_pushfail", 1); for _ in 0..r.range(1, 3) { ops.push("pushfail".into()); } }
             30..=59 => { let k = r.range(1, 5); ops.push(format!("push {}", k)); left = left.saturating_sub(k); }
             60..=84 => {
                 // to just before / onto / past the next epoch boundary
                 let k = (*r.pick(&[9990u64, 9995, 9998, 9999, 10000, 10001, 10005])).min(left);
                 if k > 0 { out.stat("e_push_epoch", 1); ops.push(format!("push {}", k)); left -= k; }
+                if r.chance(1, 4) { out.stat("e_gen_pushfail", 1); ops.push("pushfail".into()); }
             }
             _ => { let k = r.range(1, 3000).min(left); if k > 0 { ops.push(format!("push {}", k)); left -= k; } }
         }
@@ -801,7 +913,19 @@ fn gen_k(r: &mut Rng, out: &mut Out, icd: bool, well: bool, len: u64, epoch: u64
             ops.push("use".into());
             peeked = true;
         } else if c < 90 {
-            if icd || r.chance(2, 3) {
+            if icd && r.chance(1, 8) {
+                // the store of `advance_counter` fails (if one is due): the application is told by the
+                // error; well-behaved = it stores before it sends again (retrying while that fails too)
+                out.stat("k_gen_advstfail", 1);
+                ops.push("advstfail".into());
+                if well {
+                    while r.chance(1, 3) { ops.push("persistfail".into()); }
+                    ops.push("persist".into());
+                    pending = false;
+                } else {
+                    pending = true;
+                }
+            } else if icd || r.chance(2, 3) {
                 ops.push("advst".into());
             } else {
                 ops.push("adv".into());
@@ -836,6 +960,8 @@ fn gen_k(r: &mut Rng, out: &mut Out, icd: bool, well: bool, len: u64, epoch: u64
 /// every (re)start and after a jump that moved the boundary)
 fn gen_c(r: &mut Rng, out: &mut Out, well: bool, len: u64, epoch: u64) -> Vec<String> {
     let mut ops: Vec<String> = Vec::new();
+    // failing stores: none, rare, frequent, mostly (small epochs make every other store fail)
+    let p_fail = *r.pick(&[0u64, 0, 5, 20, 60]);
     let mut pending = true;
     let mut spent: u64 = 0;
     let big_ok = epoch < (1 << 20);
@@ -861,7 +987,15 @@ fn gen_c(r: &mut Rng, out: &mut Out, well: bool, len: u64, epoch: u64) -> Vec<St
                 if !well && pending {
                     out.stat("c_gen_checkin_disobeying", 1);
                 }
-                ops.push("checkin".into());
+                if r.chance(p_fail, 100) {
+                    // failing stores inside `send_check_in`: the first n succeed (n = 0: the retry of a due
+                    // boundary fails and nothing is sent; n = 1 with a due boundary: the retry succeeds, the
+                    // store of `advance_counter` fails again)
+                    out.stat("c_gen_checkinfail", 1);
+                    ops.push(format!("checkinfail {}", r.below(2)));
+                } else {
+                    ops.push("checkin".into());
+                }
                 spent += 1;
             }
             75..=86 => {
@@ -907,7 +1041,7 @@ pub fn gen(a: &Args) -> String {
     out.buf.push_str("#rule one case = one lifetime of a device's storage: a start boundary (absent, 0, 1, next to the wrap-around of the counter range, or uniform) and a history of reservations / stores / uses with power losses placed before or after every individual store; streams W (the real group transmit path: a real Matter re-hydrated by Matter::startup from a recording / crash-injecting KV store, Exchange::initiate_group + group_invoke_with, the counter read from the datagram handed to the network; plus all W histories of length 4 (quick) / 6 (thorough) over {open, send, power loss before / after the store inside initiate_group, power loss}), g (group data counter through the real Sessions + initiate_group's caller protocol; plus all g histories of length 6 (quick) / 7 (thorough) over {reserve, store, stash, use, crash} from start values at the wrap), e (Events::push with a recording KV store), C (the real Icd::send_check_in on a real Matter, the harness answering the mDNS resolve; the counter decrypted from the Check-In datagram handed to the network; power loss before / after the store of advance_counter), k (CheckInCounter, harness = application), i (Icd storage wrappers); non-trivial = at least one power loss, at least two values used and at least one store in the case (cases not reaching that are still counted when they produced two different outputs); distinct = by start boundary + operation list\n");
     // all `g` histories of a fixed length over the caller's alphabet, from start values at the wrap
     // (shorter histories are prefixes of these)
-    let alphabet = ["reserve 0", "store", "stash", "use 0", "crash"];
+    let alphabet = ["reserve 0", "store", "storefail", "stash", "use 0", "crash"];
     let (exh_len, exh_starts): (u32, &[Option<u64>]) = if a.thorough {
         (7, &[Some(MASK), Some(MASK - 1), Some(MASK - 999), Some(MASK - 998), Some(0), None])
     } else {
@@ -929,7 +1063,7 @@ pub fn gen(a: &Args) -> String {
     }
     // the same for the REAL transmit path (`W`): all histories of a fixed length over
     // {open, send, power loss before / after the store inside initiate_group, power loss}
-    let w_alphabet = ["open 0", "send 0", "opencrash b 0", "opencrash a 0", "crash"];
+    let w_alphabet = ["open 0", "openfail 0", "send 0", "opencrash b 0", "opencrash a 0", "crash"];
     let (w_len, w_starts): (u32, &[Option<u64>]) = if a.thorough {
         (6, &[Some(MASK), Some(MASK - 999), Some(MASK - 1), Some(0), None])
     } else {
